@@ -42,6 +42,10 @@ def run(tier, seed, t0):
                         timeout=3600, meta={"layout": (l, bg), "lg": lg, "shard": 0}))
     for N in (16, 512, 4096):
         jobs.append(Job("scalar-N%d" % N, "drv_c12", "scalar", "nayuki-portable", ["--seed", seed, "--l", 3, "--Bgbit", 7, "--N", N, "--log2count", 20], timeout=3600))
+    # several threads at once, each with its own layout and ring degree; natively (AVX2 and portable builds) and under TSan
+    jobs.append(Job("threads-optim", "drv_c12", "optim", "spqlios-fma", ["--mode", "threads", "--threads", 12, "--iters", 3000 if thorough else 400, "--seed", seed + 3], timeout=3600))
+    jobs.append(Job("threads-scalar", "drv_c12", "scalar", "nayuki-portable", ["--mode", "threads", "--threads", 12, "--iters", 1500 if thorough else 300, "--seed", seed + 4], timeout=3600))
+    jobs.append(Job("threads-tsan", "drv_c12", "tsan", "nayuki-portable", ["--mode", "threads", "--threads", 4, "--iters", 60, "--seed", seed + 5], tool="tsan", timeout=3600, meta={"leaks": False}))
     # one layout under ASan as well (scalar tail code, harness buffers)
     jobs.append(Job("asan-l3-bg7", "drv_c12", "asan", "spqlios-fma", ["--seed", seed, "--l", 3, "--Bgbit", 7, "--log2count", 20], timeout=1800))
 
